@@ -80,22 +80,27 @@ def ApiError.status : ApiError → Nat
 /-- `ApiKeyHash::verify`: hash the presented key and compare digests; modelled as key equality. -/
 def verify (stored presented : String) : Bool := stored == presented
 
+/-- `Some(presented) if hash.verify(presented)`: a token is presented and it is this key. -/
+def presentedIs (stored : String) : Option String → Bool
+  | some p => verify stored p
+  | none => false
+
 /-- `auth::authorize`, rule by rule. -/
 def authorize (admin bound : Option String) (scope : Scope) (presented : Option String) :
     Except ApiError Principal :=
   match admin with
   | none => .ok .admin                                             -- rule 1
   | some a =>
-    if (match presented with | some p => verify a p | none => false) then
-      .ok .admin                                                   -- rule 2
+    if presentedIs a presented then .ok .admin                     -- rule 2
     else
       match scope with
       | .root => .error .unauthorized                              -- rule 4, root scope
       | .database _ =>
-        match bound, presented with
-        | some b, some p => if verify b p then .ok .database       -- rule 3
-                            else .error .unauthorized              -- rule 4
-        | _, _ => .error .unauthorized                             -- rule 4
+        match bound with
+        | some b =>
+          if presentedIs b presented then .ok .database            -- rule 3
+          else .error .unauthorized                                -- rule 4 (wrong or missing token)
+        | none => .error .unauthorized                             -- rule 4 (no binding)
 
 /-! ## Server state -/
 
@@ -115,10 +120,9 @@ structure State where
   stored : List String             -- databases whose metadata object exists in the store
 deriving DecidableEq, Repr
 
-def lookup (m : List (String × String)) (n : String) : Option String :=
-  match m with
-  | [] => none
-  | (k, v) :: rest => if k == n then some v else lookup rest n
+def lookup : List (String × String) → String → Option String
+  | [], _ => none
+  | kv :: rest, n => if kv.1 == n then some kv.2 else lookup rest n
 
 def eraseKey (m : List (String × String)) (n : String) : List (String × String) :=
   m.filter (fun kv => !(kv.1 == n))
